@@ -54,22 +54,27 @@ Definition own_diags (c : content) : list diag :=
   | None => if is_terr c then [DType] else []
   end.
 
+(* diagnostic that a failing import of [q] adds to the importing document; [et q] are the
+   typecheck diagnostics of the document at [q] *)
+Definition imp_diag (et : path -> list diag) (q : path) : list diag :=
+  match cu q with
+  | Some cq => if is_perr cq then [DImpParse q]
+               else if is_nil (et q) then [] else [DImpType q]
+  | None => []
+  end.
+
+(* typecheck diagnostics of a document with text [c] *)
+Definition expect_c (et : path -> list diag) (c : content) : list diag :=
+  own_diags c ++ flat_map (imp_diag et) (nodup Nat.eq_dec (fst (reach (c_imports c)))).
+
 (* typecheck diagnostics of the document at [p]; [n] bounds the depth of the import graph *)
 Fixpoint expect_t (n : nat) (p : path) : list diag :=
   match n with
   | 0 => []
-  | S k =>
-      match cu p with
-      | None => []
-      | Some c =>
-          own_diags c ++
-          flat_map (fun q => match cu q with
-                             | Some cq => if is_perr cq then [DImpParse q]
-                                          else if is_nil (expect_t k q) then [] else [DImpType q]
-                             | None => []
-                             end)
-                   (nodup Nat.eq_dec (fst (reach (c_imports c))))
-      end
+  | S k => match cu p with
+           | None => []
+           | Some c => expect_c (expect_t k) c
+           end
   end.
 
 (* the diagnostics published for the document at [p] *)
